@@ -371,7 +371,14 @@ func (s *Styler) Value(v string, kind string) *Node {
 					// a blank line inside a literal scalar is an ordinary "\n" of the value
 					at := rapid.IntRange(1, len(lines)-1).Draw(t, s.lbl("litblankat"))
 					nl := append([]string{}, lines[:at]...)
-					nl = append(nl, "")
+					// either a truly empty line, or a whitespace-only line that is longer than
+					// the block's indentation (its extra spaces are content of a literal scalar)
+					blank := ""
+					if rapid.Bool().Draw(t, s.lbl("litblankws")) {
+						blank = pad(rapid.IntRange(1, 3).Draw(t, s.lbl("litblankwsn")))
+						s.Used["literal-ws-line"]++
+					}
+					nl = append(nl, blank)
 					lines = append(nl, lines[at:]...)
 					s.Used["literal-blank"]++
 				}
